@@ -108,3 +108,23 @@ func hash64s(s string) uint64 {
 	}
 	return h
 }
+
+// bitSubsets lists every subset of at most maxK (<= 3) of n bit positions.
+func bitSubsets(n, maxK int) [][]int {
+	var out [][]int
+	out = append(out, nil)
+	for a := 0; a < n; a++ {
+		out = append(out, []int{a})
+		if maxK >= 2 {
+			for b := a + 1; b < n; b++ {
+				out = append(out, []int{a, b})
+				if maxK >= 3 {
+					for c := b + 1; c < n; c++ {
+						out = append(out, []int{a, b, c})
+					}
+				}
+			}
+		}
+	}
+	return out
+}
